@@ -1,10 +1,13 @@
 package chain
 
 import (
+	"fmt"
+	"sort"
 	"testing"
 	"time"
 
 	"github.com/protolambda/zrnt/eth2/beacon/common"
+	"github.com/protolambda/ztyp/tree"
 )
 
 func runChain(t *testing.T, cfg *Config, n int, bal string, seed int64, slots int, pol *Policy) *Chain {
@@ -58,5 +61,165 @@ func TestLeakOnSparseParticipation(t *testing.T) {
 	}
 	if c.Counters.LeakEpochs == 0 {
 		t.Errorf("no leak epochs")
+	}
+}
+
+func TestGenesisInLaterForks(t *testing.T) {
+	for _, cfg := range []*Config{Fast(0, 1, 2, 3), Fast(0, 0, 1, 2), Fast(0, 0, 0, 1), Fast(0, 0, 0, 0), Fast(0, 0, 0, Never), Fast(0, 0, Never, Never), Fast(0, Never, Never, Never), MinimalAt(0, 0, 0, 0)} {
+		c := runChain(t, cfg, 64, "mixed", 5, 3*8, nil)
+		if c.GenesisFork != ForkAtEpoch(cfg.Spec, 0) {
+			t.Errorf("%s: genesis fork %s", cfg.ID, c.GenesisFork)
+		}
+	}
+}
+
+func TestEth1Genesis(t *testing.T) {
+	c, err := NewChainOpts(Fast(1, 2, 3, 4), GenesisOpts{Validators: 32, Balances: "mixed", Seed: 9, Mode: "eth1"})
+	if err != nil {
+		t.Fatal(err)
+	}
+	if _, err := c.Run(16); err != nil {
+		t.Fatal(err)
+	}
+}
+
+func TestRandomConfigsRun(t *testing.T) {
+	n := 12
+	if testing.Short() {
+		n = 4
+	}
+	tot := newCounters()
+	for seed := int64(0); seed < int64(n); seed++ {
+		cfg := RandomConfig(seed)
+		nv := []int{16, 32, 64, 100, 128}[seed%5]
+		c := runChain(t, cfg, nv, []string{"mixed", "uniform", "rich", "poor"}[seed%4], seed, 6*int(cfg.Spec.SLOTS_PER_EPOCH), nil)
+		tot.Add(&c.Counters)
+	}
+	t.Logf("TOTAL %s", tot.Summary())
+}
+
+func TestDeterministic(t *testing.T) {
+	run := func() ([]byte, string) {
+		c, err := NewChain(Fast(1, 2, 2, 3), 48, "mixed", 77)
+		if err != nil {
+			t.Fatal(err)
+		}
+		steps, err := c.Run(40)
+		if err != nil {
+			t.Fatal(err)
+		}
+		var all []byte
+		for _, s := range steps {
+			if s.Block != nil {
+				all = append(all, s.Block.Bytes(c.Spec)...)
+			}
+		}
+		all = append(all, StateBytes(c.State)...)
+		return all, c.Counters.Summary()
+	}
+	a, sa := run()
+	b, sb := run()
+	if string(a) != string(b) || sa != sb {
+		t.Fatalf("two runs with the same seed differ\n%s\n%s", sa, sb)
+	}
+}
+
+func TestSSZRoundTrip(t *testing.T) {
+	c, err := NewChain(Fast(1, 2, 3, 4), 32, "mixed", 4)
+	if err != nil {
+		t.Fatal(err)
+	}
+	steps, err := c.Run(5 * 8)
+	if err != nil {
+		t.Fatal(err)
+	}
+	for _, s := range steps {
+		st, err := DecodeState(c.Spec, s.Fork, StateBytes(s.Post))
+		if err != nil {
+			t.Fatalf("slot %d: %v", s.Slot, err)
+		}
+		if r := st.HashTreeRoot(tree.GetHashFn()); r != s.PostRoot {
+			t.Fatalf("slot %d: state root changed by SSZ round trip", s.Slot)
+		}
+		if s.Block != nil {
+			b := s.Block.Clone(c.Spec)
+			if b.Root(c.Spec) != s.Block.Root(c.Spec) {
+				t.Fatalf("slot %d: block root changed by SSZ round trip", s.Slot)
+			}
+			// the step's pre-state + block reproduce the post-state through the public helper
+			post, err := s.Apply(b)
+			if err != nil {
+				t.Fatalf("slot %d: Apply: %v", s.Slot, err)
+			}
+			if post.HashTreeRoot(tree.GetHashFn()) != s.PostRoot {
+				t.Fatalf("slot %d: Apply gives another post state", s.Slot)
+			}
+		}
+	}
+}
+
+func TestMutants(t *testing.T) {
+	type stat struct{ n, rejected, accepted, panics int }
+	byRule := map[string]*stat{}
+	var bad []string
+	total := 0
+	for ci, cfg := range []*Config{Fast(1, 2, 3, 4), Fast(0, 0, 1, 2), RandomConfig(6)} {
+		c, err := NewChain(cfg, 48, "mixed", int64(100+ci))
+		if err != nil {
+			t.Fatal(err)
+		}
+		c.Policy.ProposerSlashings, c.Policy.AttesterSlashings, c.Policy.Exits = 0.3, 0.3, 0.4
+		for i := 0; i < 6*int(cfg.Spec.SLOTS_PER_EPOCH); i++ {
+			s, err := c.NextSlot(nil)
+			if err != nil {
+				t.Fatal(err)
+			}
+			if s.Block == nil || i%3 != 0 {
+				continue
+			}
+			for _, mu := range c.Mutations(s, 2) {
+				mu := mu
+				total++
+				o := c.ApplyMutant(s, &mu)
+				st := byRule[mu.Rule]
+				if st == nil {
+					st = &stat{}
+					byRule[mu.Rule] = st
+				}
+				st.n++
+				switch {
+				case o.Panic != nil:
+					st.panics++
+					bad = append(bad, fmt.Sprintf("%s slot %d %s: PANIC %v", cfg.ID, s.Slot, mu.Label, o.Panic))
+				case o.Accepted:
+					st.accepted++
+					if !mu.ExpectValid {
+						bad = append(bad, fmt.Sprintf("%s slot %d (%s) %s [%s]: ACCEPTED", cfg.ID, s.Slot, s.Fork, mu.Label, mu.Rule))
+					}
+				default:
+					st.rejected++
+					if mu.ExpectValid {
+						bad = append(bad, fmt.Sprintf("%s slot %d (%s) %s: valid mutant REJECTED: %v", cfg.ID, s.Slot, s.Fork, mu.Label, o.Err))
+					}
+				}
+			}
+		}
+	}
+	rules := make([]string, 0, len(byRule))
+	for r := range byRule {
+		rules = append(rules, r)
+	}
+	sort.Strings(rules)
+	for _, r := range rules {
+		s := byRule[r]
+		t.Logf("%-40s n=%-4d rejected=%-4d accepted=%-4d panics=%d", r, s.n, s.rejected, s.accepted, s.panics)
+	}
+	t.Logf("%d mutants", total)
+	seen := map[string]bool{}
+	for _, b := range bad {
+		if !seen[b] {
+			t.Error(b)
+			seen[b] = true
+		}
 	}
 }
